@@ -4,6 +4,8 @@ import Flowjaxv.Proofs.Leaves
 import Flowjaxv.Proofs.Flows
 import Flowjaxv.Proofs.CtorsGen
 import Flowjaxv.Proofs.JaxTransforms
+import Flowjaxv.Proofs.MergeGen
+import Flowjaxv.Proofs.MergeGenWF
 /-!
 # C08 — combinators mean what their definitions say, for every shape and axis
 
@@ -995,6 +997,109 @@ theorem gen_vmap_instance :
     · exact hch 3 (1/2) (by norm_num)
 
 end JaxTransformsGen
+
+
+
+/-! ## `Chain.__getitem__ / __len__ / __iter__ / merge_chains`, REGENERATED (`Gen/MergeGen.lean`, translated from `chain.py` on every
+run by `tools/py2lean/py2meth.py`, sheet `targets_merge.py`; objects and Python constructs: `Model/MergeWorld.lean`; proofs:
+`Proofs/MergeGen.lean`) -/
+section MergeGen
+open Mw GenMerge MergeGen
+
+/-- **the generated `merge_chains`, exactly** (every nesting depth): the regenerated `Chain.__init__` applied to the FULL
+flattening of the members, left to right — the `while any(isinstance(b, Chain) …)` loop never runs out of fuel, and the only
+exception possible is the constructor's -/
+theorem gen_merge_chains_eq {X C α : Type} (c : ChainObj X C α) :
+    Chain.mergeChains c = Mw.mkChain (B.flatL c.bijections) := MergeGen.mergeChains_eq c
+
+/-- **generated `merge_chains` never changes the bijection** (`merge_chains_step` lifted to every depth): whenever it returns, the
+members are the full flattening, none of them is a `Chain`, and `transform`, `inverse`, `transform_and_log_det`,
+`inverse_and_log_det` — through the generated `Chain` — are those of the original nested chain -/
+theorem gen_merge_chains_sem {X C : Type} (c c' : ChainObj X C ℝ) (h : Chain.mergeChains c = .ok c') :
+    c'.bijections = B.flatL c.bijections ∧ c'.bijections.any B.isChain = false ∧ c'.toB.toBij = c.toB.toBij :=
+  MergeGen.mergeChains_sem c c' h
+
+/-- a (nested) bijection object computes the generated `Chain` of its leaves, left to right -/
+theorem gen_flatten_sem {X C : Type} (l : List (B X C ℝ)) :
+    (Chain.mk ((B.flatL l).map B.toBij)).toBij = (Chain.mk (l.map B.toBij)).toBij := MergeGen.flatL_eq l
+
+/-- **generated `Chain.__getitem__` on an int**: the member itself, `0 ≤ i < n` from the front, `−n ≤ i < 0` from the end,
+IndexError otherwise; anything that is neither an int nor a slice is a TypeError -/
+theorem gen_chain_getitem_int {X C α : Type} (c : ChainObj X C α) :
+    (∀ i : Nat, ∀ h : i < c.bijections.length, Chain.getitem c (.int i) = .ok c.bijections[i]) ∧
+    (∀ k : Nat, ∀ h0 : 0 < k, ∀ h : k ≤ c.bijections.length,
+        Chain.getitem c (.int (-(k : Int))) = .ok (c.bijections[c.bijections.length - k]'(by omega))) ∧
+    (∀ i : Int, i < -(c.bijections.length : Int) ∨ (c.bijections.length : Int) ≤ i →
+        Chain.getitem c (.int i) = .error (.py .indexError)) ∧
+    Chain.getitem c .other = .error (.py .typeError) :=
+  ⟨fun i h => MergeGen.idxI_nonneg _ i h, fun k h0 h => MergeGen.idxI_neg _ k h0 h, fun i h => MergeGen.idxI_out _ i h, rfl⟩
+
+/-- **generated `Chain.__getitem__` on a slice** `a:b` (either bound optional, negative bounds from the end, out-of-range bounds
+clamped; step `None` or `1`): `Chain(self.bijections[a:b])` through the regenerated constructor; whenever it returns, the result
+is the chain of exactly the Python-sliced members and computes `chain_getitem_sem`'s `getSlice` of the generated `Chain` -/
+theorem gen_chain_getitem_sem {X C : Type} (c : ChainObj X C ℝ) (a b k : Option Int) (hk : k = none ∨ k = some 1) :
+    Chain.getitem c (.slice ⟨a, b, k⟩)
+      = (Mw.mkChain ((c.bijections.take (sliceHi c.bijections.length b)).drop (sliceLo c.bijections.length a))).bind
+          (fun c' => .ok c'.toB) ∧
+    ∀ r, Chain.getitem c (.slice ⟨a, b, k⟩) = .ok r →
+      (∃ s cs, r = .chain ((c.bijections.take (sliceHi c.bijections.length b)).drop (sliceLo c.bijections.length a)) s cs) ∧
+      r.toBij = ((Chain.mk (c.bijections.map B.toBij)).getSlice (sliceLo c.bijections.length a)
+                  (sliceHi c.bijections.length b)).toBij := by
+  refine ⟨?_, fun r h => MergeGen.getitem_slice_sem c a b k hk r h⟩
+  rw [MergeGen.getitem_slice, MergeGen.sliceGet_step1 _ _ _ _ hk]; rfl
+
+/-- a slice with step `0` is a ValueError (as `tuple[::0]`) -/
+theorem gen_chain_getitem_step0 {X C α : Type} (c : ChainObj X C α) (a b : Option Int) :
+    Chain.getitem c (.slice ⟨a, b, some 0⟩) = .error (.py .valueError) := rfl
+
+/-- generated `__len__` / `__iter__`: the number of members / the members in order -/
+theorem gen_chain_len_iter {X C α : Type} (c : ChainObj X C α) :
+    Chain.len c = c.bijections.length ∧ Chain.iter c = c.bijections := ⟨rfl, rfl⟩
+
+/-- non-vacuity by kernel evaluation at ℤ (non-commuting `x+3`, `−x`, `2x`, `x+1`): `merge_chains` of
+`Chain([x+3, Chain([−x, Chain([2x])])])` has 3 members, none a chain, and the same `transform(5) = −16` / `inverse(5) = −5`;
+on the flat chain of the four, `c[0]`, `c[-1]`, `c[-4]` are the members, `c[4]`, `c[-5]` IndexErrors, `c[1:3]` and `c[-3:-1]` the
+chain `[−x, 2x]`, `c[::-1]` the reversed chain, `c[2:1]` the constructor's IndexError on an empty tuple, `c["a"]` a TypeError -/
+theorem gen_chain_instance :
+    Inst.chainSummary Inst.nestedChain = some (3, false, -16, -5) ∧
+    (Inst.nestedChain.toB.toBij.fwd 5 (), Inst.nestedChain.toB.toBij.inv 5 ()) = (-16, -5) ∧
+    Inst.getSummary Inst.flat4 (.int 0) = .ok (0, 8) ∧ Inst.getSummary Inst.flat4 (.int (-1)) = .ok (0, 6) ∧
+    Inst.getSummary Inst.flat4 (.int (-4)) = .ok (0, 8) ∧
+    Inst.getSummary Inst.flat4 (.int 4) = .error (.py .indexError) ∧
+    Inst.getSummary Inst.flat4 (.int (-5)) = .error (.py .indexError) ∧
+    Inst.getSummary Inst.flat4 (.slice ⟨some 1, some 3, none⟩) = .ok (2, -10) ∧
+    Inst.getSummary Inst.flat4 (.slice ⟨some (-3), some (-1), none⟩) = .ok (2, -10) ∧
+    Inst.getSummary Inst.flat4 (.slice ⟨none, none, some (-1)⟩) = .ok (4, -9) ∧
+    Inst.getSummary Inst.flat4 (.slice ⟨some 2, some 1, none⟩) = .error (.py .indexError) ∧
+    Inst.getSummary Inst.flat4 .other = .error (.py .typeError) :=
+  ⟨by decide, by decide, by decide, by decide, by decide, by decide, by decide, by decide, by decide, by decide, by decide, by decide⟩
+
+/-- `Chain(bs)` through the regenerated constructor returns `c` iff: at least one member, every member declares `c.shape`, and
+`merge_cond_shapes` of the members' condition shapes is `c.cond_shape` (C13's `chainCtor`) -/
+theorem gen_chain_ctor_ok_iff {X C α : Type} (bs : List (B X C α)) (c : ChainObj X C α) :
+    Mw.mkChain bs = .ok c ↔
+      c.bijections = bs ∧ (∃ rest, bs.map B.shape = c.shape :: rest ∧ ∀ t ∈ bs.map B.shape, t = c.shape) ∧
+      ArgCheck.mergeCondShapes (bs.map B.cond_shape) = .ok c.cond_shape := MergeGen.mkChain_ok_iff bs c
+
+/-- **when the generated `merge_chains` returns**: iff the full flattening is non-empty, its members declare one shape and
+compatible condition shapes -/
+theorem gen_merge_chains_accepts_iff {X C α : Type} (c : ChainObj X C α) :
+    (∃ c', Chain.mergeChains c = .ok c') ↔
+      (∃ s rest, (B.flatL c.bijections).map B.shape = s :: rest ∧ ∀ t ∈ (B.flatL c.bijections).map B.shape, t = s) ∧
+      ArgCheck.CondCompatible ((B.flatL c.bijections).map B.cond_shape) := MergeGen.mergeChains_accepts_iff c
+
+/-- **`merge_chains` of every chain built by the constructors returns** (every nesting depth: each inner `Chain` carries the
+fields the regenerated `Chain.__init__` computes from its members), and the flat chain declares the same `shape` and
+`cond_shape` — `merge_cond_shapes` is associative under flattening -/
+theorem gen_merge_chains_returns {X C α : Type} (c : ChainObj X C α) (h : MergeGen.WF c.toB) :
+    ∃ c', Chain.mergeChains c = .ok c' ∧ c'.shape = c.shape ∧ c'.cond_shape = c.cond_shape := MergeGen.mergeChains_wf c h
+
+/-- the constructor's results are well-formed, so `merge_chains` can be applied to anything `Chain(...)` returned on
+well-formed members (non-vacuity of `WF`: `C03.gen_merge_transforms_returns_instance`) -/
+theorem gen_chain_ctor_wf {X C α : Type} {bs : List (B X C α)} {c : ChainObj X C α} (h : Mw.mkChain bs = .ok c)
+    (hbs : MergeGen.WFL bs) : MergeGen.WF c.toB := MergeGen.WF_of_mkChain h hbs
+
+end MergeGen
 
 
 end C08
